@@ -307,7 +307,19 @@ class View:
         self.arr.e[self.lo + k] = _wrap(v, b, s)
 
 
-class KNumpy:
+class _KNumpyMeta(type):
+    def __getattr__(cls, name):
+        # value-independent helpers (iinfo, dtype objects, ...) come from real NumPy
+        import numpy as _rnp
+        if name.startswith("__"):
+            raise AttributeError(name)
+        real = getattr(_rnp, name)
+        if name in ("iinfo", "finfo", "dtype", "intp", "uint64", "int32", "uint8", "uint16", "nan", "inf"):
+            return real
+        raise HarnessError("kernel numpy: numpy.%s is not modelled" % name)
+
+
+class KNumpy(metaclass=_KNumpyMeta):
     """The NumPy surface used inside set_operations.pyx."""
     uint32 = "uint32"
     int64 = "int64"
